@@ -158,6 +158,19 @@ SymQCalls ==
     \cup {[C0 EXCEPT !.op = o, !.p = p, !.q = FreshQ] : o \in {"rename", "link"}, p \in QPaths}
 
 (***************************************************************************)
+(* Profile "nsseed": the namespace templates from configured, richer trees *)
+(* (a directory with content, a file with a second hard link outside its   *)
+(* directory, nested directories) - states that need 4-6 calls to build.   *)
+(***************************************************************************)
+SeedHists ==
+    {<<Mk("mkdir", AbsP(<<"w", "a">>)), Mk("writefile", AbsP(<<"w", "a", "a">>)),
+       [Mk("link", AbsP(<<"w", "a", "a">>)) EXCEPT !.q = AbsP(<<"w", "b">>)],
+       Mk("mkdir", AbsP(<<"w", "a", "b">>))>>,
+     <<Mk("mkdir", AbsP(<<"w", "a">>)), Mk("mkdir", AbsP(<<"w", "a", "b">>)), Mk("mkdir", AbsP(<<"w", "b">>)),
+       Mk("writefile", AbsP(<<"w", "b", "a">>)), [Mk("link", AbsP(<<"w", "b", "a">>)) EXCEPT !.q = AbsP(<<"w", "a", "a">>)]>>,
+     <<Mk("writefile", AbsP(<<"w", "a">>)), [Mk("link", AbsP(<<"w", "a">>)) EXCEPT !.q = AbsP(<<"w", "b">>)]>>}
+
+(***************************************************************************)
 (* Profile "symchain": chains l1 -> l2 -> ... -> ln -> file, around the    *)
 (* budgets of the kernel (40) and of EvalSymlinks (255).                   *)
 (***************************************************************************)
@@ -188,6 +201,7 @@ Calls(s) ==
                  [] Profile = "nsorefa" -> NsCalls
                  [] Profile = "nssym" -> NsCalls \cup SymCalls \cup OwnCalls
                  [] Profile = "handles" -> HandleProfileCalls(s)
+                 [] Profile = "nsseed" -> NsCalls
                  [] Profile = "symq" -> SymQCalls
                  [] Profile = "symchain" -> ChainCalls
                  [] OTHER -> NsCalls IN
@@ -213,6 +227,7 @@ InitFor ==
 Init ==
     /\ last = [call |-> C0, res |-> R0]
     /\ CASE Profile = "symq" -> \E g \in Graphs : hist = GraphHist(g) /\ st = RunCalls(InitSt, GraphHist(g))
+         [] Profile = "nsseed" -> \E hh \in SeedHists : hist = hh /\ st = RunCalls(InitSt, hh)
          [] Profile = "symchain" -> \E n \in ChainLens : hist = ChainHist(n) /\ st = RunCalls(InitSt, ChainHist(n))
          [] OTHER -> st = InitFor /\ hist = <<>>
 
@@ -222,7 +237,9 @@ Budget == IF Profile \in {"symq", "symchain"} THEN 1 ELSE MaxLen
 EmitHist == IF Profile = "handles" THEN <<[C0 EXCEPT !.op = "writefile", !.p = FA, !.data = <<1, 2, 3>>, !.perm = 420]>> \o hist ELSE hist
 
 Next ==
-    /\ (IF Profile \in {"symq", "symchain"} THEN last.call.op = "" ELSE Len(hist) < MaxLen)
+    /\ (IF Profile \in {"symq", "symchain"} THEN last.call.op = ""
+        ELSE IF Profile = "nsseed" THEN Len(hist) < MaxLen + 5 /\ (last.call.op = "" \/ Len(hist) < 4 + MaxLen)
+        ELSE Len(hist) < MaxLen)
     /\ \E c \in Calls(st) :
         LET o == Apply(st, c) IN
         /\ \A i \in DOMAIN o.st.ino : Len(o.st.ino[i].data) <= MaxSize + 3
